@@ -66,6 +66,18 @@ def check_extract(spec, ctx):
             except InvalidStrandException:
                 ctx.refuse("unstranded")
         return
+    if len(rm.sorted_blocks(L["blocks"])) >= 1 and not any(b[1] == b[0] for b in L["blocks"]):
+        # the same location assembled from a working list of single intervals that the caller goes on using afterwards
+        from inscripta.biocantor.location.location_impl import CompoundInterval as _CI, SingleInterval as _SI
+        ivs = [_SI(s_, e_, STRAND[L["strand"]], root) for s_, e_ in sorted(map(tuple, L["blocks"]))]
+        try:
+            assembled = _CI.from_single_intervals(ivs)
+            ivs.append(_SI(0, 1, STRAND[L["strand"]], root))
+            ivs.reverse()
+            del ivs[1:]
+            ctx.eq("extract_image_of_location_assembled_from_a_list_edited_later", str(assembled.extract_sequence()), rm.seq_image(g, pos, L["strand"]))
+        except ValueError:
+            pass
     seq = loc.extract_sequence()
     ctx.true("extract_type", type(seq) is Sequence, type(seq).__name__)
     exp = rm.seq_image(g, pos, L["strand"])
